@@ -963,6 +963,42 @@ func (vc *VC) havocAllHeaps(st *State) {
 	vc.heapGen++
 }
 
+// havocMapHeaps: the contents of every Go map may have changed (modifies mapcontents).
+func (vc *VC) havocMapHeaps(st *State) {
+	names := map[string]bool{}
+	for k := range st.heaps {
+		names[k] = true
+	}
+	for k := range vc.heap0 {
+		if len(k) > 0 && k[0] != '$' {
+			names[k] = true
+		}
+	}
+	var ks []string
+	for k := range names {
+		if isMapHeap(k) {
+			ks = append(ks, k)
+		}
+	}
+	sort.Strings(ks)
+	for _, k := range ks {
+		sn := vc.heapSorts[k]
+		if sn == "" {
+			continue
+		}
+		vc.nfresh++
+		n := fmt.Sprintf("%s!%d", smtName(k), vc.nfresh)
+		vc.consts = append(vc.consts, fmt.Sprintf("(declare-const %s %s)", n, sn))
+		vc.preserveOwned(st, k, sn, n)
+		st.heaps[k] = Term{n, nil}
+	}
+	vc.heapGen++ // map heaps first touched later start from an unconstrained value
+}
+
+func isMapHeap(k string) bool {
+	return strings.HasPrefix(k, "MD_") || strings.HasPrefix(k, "MV_") || strings.HasPrefix(k, "ML_")
+}
+
 // havocGhostVars: ghost package state (abstract file system, ...) is unknown after unknown code.
 func (vc *VC) havocGhostVars(st *State) {
 	var gnames []string
